@@ -445,3 +445,17 @@ func isBoolean(t types.Type) bool {
 	b, ok := t.Underlying().(*types.Basic)
 	return ok && b.Info()&types.IsBoolean != 0
 }
+
+// ascendingSortCall: in sorts its first argument, a slice of ordered elements, into ascending order with the standard
+// library (sort.Float64s/Ints/Strings or slices.Sort).
+func ascendingSortCall(in ssa.Instruction) (*ssa.CallCommon, bool) {
+	for _, n := range []string{"Float64s", "Ints", "Strings"} {
+		if cc, ok := callIs(in, "sort", "", n); ok {
+			return cc, true
+		}
+	}
+	if cc, ok := callIs(in, "slices", "", "Sort"); ok {
+		return cc, true
+	}
+	return nil, false
+}
